@@ -8,6 +8,7 @@ package main
 
 import (
 	"bufio"
+	"bytes"
 	"fmt"
 	"io"
 	"os"
@@ -15,6 +16,7 @@ import (
 	"strconv"
 	"strings"
 	"sync"
+	"sync/atomic"
 	"time"
 
 	jmespath "github.com/jmespath/go-jmespath"
@@ -218,6 +220,7 @@ func runStream(cfg runCfg, stream string, count int, st *stats) {
 				curIdx := start
 				pending := ""
 				finished := false
+				timedOut := false
 				for {
 					l, err := rd.ReadString('\n')
 					if err != nil {
@@ -232,6 +235,7 @@ func runStream(cfg runCfg, stream string, count int, st *stats) {
 					case strings.HasPrefix(l, "> "):
 						pending = l[2:]
 					case strings.HasPrefix(l, "< "):
+						timedOut = l[2:] == "timeout" // the worker exits after reporting a timeout; that is not a crash
 						handleAnswer(cfg, lean, stream, curIdx, pending, l[2:], st)
 						pending = ""
 					}
@@ -243,7 +247,7 @@ func runStream(cfg runCfg, stream string, count int, st *stats) {
 				// the worker died (or exited on a timeout it already reported)
 				if pending != "" {
 					handleAnswer(cfg, lean, stream, curIdx, pending, "crash", st)
-				} else if !finished {
+				} else if !finished && !timedOut {
 					st.mu.Lock()
 					st.crashes = append(st.crashes, result{stream: stream, idx: curIdx, line: "(during generation)", goAns: "crash"})
 					st.mu.Unlock()
@@ -255,7 +259,49 @@ func runStream(cfg runCfg, stream string, count int, st *stats) {
 	wg.Wait()
 }
 
+// retryAlone: a case that exceeded the per-line time limit inside a busy worker is run again, alone in a
+// fresh process (after its history line), with a limit twelve times as long; only if it still does not
+// answer is it a hang.  Keeps a loaded machine from turning a slow case into an alarm.
+var confirmedHangs int32
+
+func retryAlone(cfg runCfg, idx int, line string) string {
+	if atomic.LoadInt32(&confirmedHangs) >= 2 {
+		return "timeout" // two cases already hung when run alone: do not spend a minute on each further one
+	}
+	cmd := exec.Command(cfg.self, "exec")
+	cmd.Env = append(os.Environ(), "GOTRACEBACK=none")
+	isZ := strings.HasPrefix(line, "Z ")
+	if isZ {
+		cmd.Stdin = strings.NewReader(line + "\n" + line + "\n")
+	} else {
+		cmd.Stdin = strings.NewReader(zLine(cfg.seed, idx) + "\n" + line + "\n")
+	}
+	var out bytes.Buffer
+	cmd.Stdout = &out
+	if err := cmd.Start(); err != nil {
+		return "timeout"
+	}
+	done := make(chan error, 1)
+	go func() { done <- cmd.Wait() }()
+	select {
+	case <-done:
+	case <-time.After(60 * time.Second):
+		cmd.Process.Kill()
+		<-done
+		atomic.AddInt32(&confirmedHangs, 1)
+		return "timeout"
+	}
+	ls := strings.Split(strings.TrimRight(out.String(), "\n"), "\n")
+	if len(ls) < 2 {
+		return "crash"
+	}
+	return ls[1]
+}
+
 func handleAnswer(cfg runCfg, lean *leanProc, stream string, idx int, line, goAns string, st *stats) {
+	if goAns == "timeout" {
+		goAns = retryAlone(cfg, idx, line)
+	}
 	base, flags := stripFlags(goAns)
 	leanAns := ""
 	if !goOnly(line) {
